@@ -169,6 +169,43 @@ def coq_build(vfile, timeout=1500):
     return 0, log_all
 
 
+def coq_build_all(vfiles, timeout=3000):
+    """Setup: compile the union of the closures level by level, each level in parallel."""
+    order, seen = [], set()
+    for vf in vfiles:
+        if os.path.exists(os.path.join(COQ, vf)):
+            for f in coq_closure(vf):
+                if f not in seen:
+                    seen.add(f)
+                    order.append(f)
+    level = {}
+    for f in order:            # closure order puts dependencies first
+        level[f] = 1 + max([level.get(d, 0) for d in coq_deps(f)] + [0])
+    results = {}
+
+    def one(f):
+        src = os.path.join(COQ, f)
+        vo = src + "o"
+        if os.path.exists(vo) and os.path.getmtime(vo) >= os.path.getmtime(src) and all(
+                os.path.exists(os.path.join(COQ, d) + "o") and os.path.getmtime(os.path.join(COQ, d) + "o") <= os.path.getmtime(vo)
+                for d in coq_deps(f)):
+            return f, 0, ""
+        rc, out = sh(["coqc", "-q", "-Q", "theories", "ZV", "-w", "-notation-overridden,-deprecated", f], cwd=COQ, timeout=timeout)
+        return f, rc, out[-1500:]
+
+    failed = set()
+    for lv in sorted(set(level.values())):
+        batch = [f for f in order if level[f] == lv and not any(d in failed for d in coq_deps(f))]
+        skipped = [f for f in order if level[f] == lv and f not in batch]
+        failed.update(skipped)
+        with ThreadPoolExecutor(max_workers=NCPU) as ex:
+            for f, rc, out in ex.map(one, batch):
+                results[f] = (rc, out)
+                if rc != 0:
+                    failed.add(f)
+    return results
+
+
 def theorem_names(pid):
     p = os.path.join(COQ, "theories", "Properties", pid + ".v")
     if not os.path.exists(p):
